@@ -47,6 +47,121 @@ def real_parse(src):
         return "raw:" + type(e).__name__
 
 
+# ---- the same text through Program.from_source: what the commands are actually handed
+
+def _body(v):
+    if isinstance(v, bool):
+        return "?bool"
+    if isinstance(v, int):
+        return "i:%d" % v
+    if isinstance(v, float):
+        return "f:" + (0.0 if v == 0 else v).hex()
+    if isinstance(v, str):
+        return "s:" + enc_str(v)
+    return "?" + type(v).__name__
+
+
+def _proj_expr(x):
+    v = x.value
+    if isinstance(v, list):
+        return "l%s[%s]" % (x.lineno, ",".join("%s:%s" % (e.lineno, _proj_expr(e)) for e in v))
+    if isinstance(v, dict):
+        return "d{" + ",".join("%s=%s" % (enc_str(k), _body(e.value)) for k, e in v.items()) + "}"
+    return _body(v)
+
+
+def project(p):
+    """what `Program.from_source` has to hand to the commands of the parsed program `p` (ProgramNode): result name, command name, line, and per
+    argument its name, line (scalars, tuples) or the lines of the list and of its elements, and the value"""
+    parts = []
+    for c in p.commands:
+        args = ",".join("arg(%s,%s,%s)" % (enc_str(a.name), "-" if isinstance(a.value.value, list) else a.lineno, _proj_expr(a.value)) for a in c.arguments)
+        parts.append("cmd(%s,%s,%s,[%s])" % (enc_str(c.result_name), enc_str(c.command), c.lineno, args))
+    return "ok " + " ".join(parts)
+
+
+_ANY = []
+
+
+def any_program():
+    """a Program class whose library has every command name: each name is served by one permissive command class (any arguments)"""
+    if not _ANY:
+        from mpilot.program import Program
+        from mpilot.commands import Command
+
+        class AnyCommand(Command):
+            allow_extra_inputs = True
+            inputs = {}
+
+            def execute(self, **kwargs):
+                return None
+
+        class AnyProgram(Program):
+            def find_command_class(self, name):
+                self.__dict__.setdefault("asked", []).append(name)
+                return AnyCommand
+        _ANY.append(AnyProgram)
+    return _ANY[0]
+
+
+def _load_val(v):
+    from mpilot.arguments import ListArgument
+    if isinstance(v, ListArgument):
+        lines = v.list_linenos if v.list_linenos is not None else ["?"] * len(v.value)
+        return "l%s[%s]" % (v.lineno, ",".join("%s:%s" % (ln, _load_val(x)) for ln, x in zip(lines, v.value)))
+    if isinstance(v, dict):
+        return "d{" + ",".join("%s=%s" % (enc_str(k), _body(e)) for k, e in v.items()) + "}"
+    if isinstance(v, list):
+        return "?rawlist"
+    return _body(v)
+
+
+def real_load(src):
+    """canonical text of what Program.from_source(src) hands to the commands, or 'err:<class>'"""
+    from mpilot.arguments import ListArgument
+    import warnings
+    try:
+        with warnings.catch_warnings():
+            warnings.simplefilter("ignore")
+            prog = any_program().from_source(src, libraries=())
+    except SyntaxError:
+        return "syntax"
+    except Exception as e:
+        return "err:" + type(e).__name__
+    parts = []
+    asked = prog.__dict__.get("asked", [])
+    if len(asked) != len(prog.commands):
+        return "err:commands-missing(%d of %d)" % (len(prog.commands), len(asked))
+    for (rn, c), name in zip(prog.commands.items(), asked):
+        args = ",".join("arg(%s,%s,%s)" % (enc_str(a.name), "-" if isinstance(a, ListArgument) else a.lineno, _load_val(a if isinstance(a, ListArgument) else a.value))
+                        for a in c.arguments)
+        parts.append("cmd(%s,%s,%s,[%s])" % (enc_str(c.result_name if c.result_name == rn else "%s/%s" % (rn, c.result_name)), enc_str(name), c.lineno, args))
+    return "ok " + " ".join(parts)
+
+
+def expected_load(src):
+    """expected outcome of real_load, or None when the text is outside this oracle (EEMS 2.0 forms are converted first - C16; repeated argument names)"""
+    from mpilot.parser.parser import Parser
+    from mpilot.utils import EEMS_COMMANDS
+    import warnings
+    try:
+        with warnings.catch_warnings():
+            warnings.simplefilter("ignore")
+            tree = Parser().parse(src)
+    except SyntaxError:
+        return "syntax"
+    except Exception:
+        return None
+    if tree.version != 3 or any(c.command in EEMS_COMMANDS or c.result_name is None for c in tree.commands):
+        return None
+    if any(len(set(a.name for a in c.arguments)) != len(c.arguments) for c in tree.commands):
+        return None                 # an argument given twice: the program keeps one of them (which one is not part of this property)
+    names = [c.result_name for c in tree.commands]
+    if len(set(names)) != len(names):
+        return "err:DuplicateResult"
+    return project(tree)
+
+
 def normalise_model(ans):
     """the model prints exact decimals: round them to doubles the way float(text) does"""
     import re
